@@ -240,6 +240,10 @@ class WSStream:
         elif isinstance(event, (Body, Data)) and not self.handshake.accepted:
             await self._send_error_response(400)
             self.closed = True
+            if self.app_put is not None:
+                await self.app_put(
+                    {"type": "websocket.disconnect", "code": CloseReason.ABNORMAL_CLOSURE.value}
+                )
         elif isinstance(event, (Body, Data)):
             self.connection.receive_data(event.data)
             await self._handle_events()
